@@ -352,7 +352,7 @@ func (v *FnVerifier) bytesHook(st *State, id, blob string) {
 
 // storeOpHook lets contracts assert a crash-consistency predicate after every individual store mutation (C10).
 func (v *FnVerifier) storeOpHook(fr *Frame, st *State, c *ssa.CallCommon, op string) {
-	if v.fc == nil || !fr.top {
+	if v.fc == nil || !fr.transparent {
 		return
 	}
 	for _, as := range v.fc.Asserts {
